@@ -649,10 +649,10 @@ def run(ctx):
       [(i, j) for i in range(len(THREAD_PROGRAMS)) for j in range(i, len(THREAD_PROGRAMS))]
   tot = 0
   for pi, pj in pairs:
-    tot += explore_threads(ctx, pi, pj, 'events', 2 if not ctx.thorough else 3, 3000 if not ctx.thorough else 30000)
-    tot += explore_threads(ctx, pi, pj, "lines", 1 if not ctx.thorough else 2, 3000 if not ctx.thorough else 20000)
+    tot += explore_threads(ctx, pi, pj, 'events', 2 if not ctx.thorough else 3, 3000 if not ctx.thorough else 6000)
+    tot += explore_threads(ctx, pi, pj, "lines", 1 if not ctx.thorough else 2, 3000 if not ctx.thorough else 5000)
   for nested in (False, True):
-    tot += explore_dyn_apply(ctx, nested, 1 if not ctx.thorough else 2, 1500 if not ctx.thorough else 30000)
+    tot += explore_dyn_apply(ctx, nested, 1 if not ctx.thorough else 2, 1500 if not ctx.thorough else 8000)
   ctx.states += len(items) + tot
   ctx.note('thread_schedules', tot)
   ctx.sample(dict(shape='(X(X)(X))', program='as_sealed(True){ as_sealed(None)!; as_sealed(False) }', meaning='! = left by exception'))
